@@ -245,6 +245,43 @@ def wfRec (hs : Nat) (r : Rec) : Bool :=
   | none => decide (r.ty ≠ Gen.Pack.ofsDelta ∧ r.ty ≠ Gen.Pack.refDelta ∧ r.ty < 8)
   | some b => decide (b.length = hs)
 
+/-! ## specification vocabulary: what the writer *means* to have written -/
+
+/-- The entry the writer intends for record `r` at `offset` (same OFS/REF decision as `entryBytes`). -/
+def entryOf (offset : Nat) (entries : List WEntry) (r : Rec) : Entry :=
+  match r.base with
+  | none => ⟨r.ty, .none, r.data⟩
+  | some b =>
+    match lookupOff entries b with
+    | some baseOff => ⟨Gen.Pack.ofsDelta, .ofs (offset - baseOff), r.data⟩
+    | none => ⟨Gen.Pack.refDelta, .ref b, r.data⟩
+
+/-- `(offset, entry)` for every record, in pack order (mirrors `writeRecs`). -/
+def layoutRecs (deflate : Bytes → Bytes) : Nat → List WEntry → List Rec → List (Nat × Entry)
+  | _, _, [] => []
+  | offset, entries, r :: rs =>
+    (offset, entryOf offset entries r)
+      :: layoutRecs deflate (offset + (entryBytes deflate offset entries r).length)
+          (⟨r.name, offset, entryBytes deflate offset entries r⟩ :: entries) rs
+
+/-- The objects a record list denotes when every delta's base *precedes* it: `(name, type, content)`,
+newest first.  `.error .key` when a base has not been seen yet, the delta error when a delta does not
+apply. -/
+def resolveRecs : List (Bytes × Nat × Bytes) → List Rec → Except Err (List (Bytes × Nat × Bytes))
+  | acc, [] => .ok acc
+  | acc, r :: rs =>
+    match r.base with
+    | none => resolveRecs ((r.name, r.ty, r.data) :: acc) rs
+    | some b =>
+      match acc.find? (fun a => a.1 = b) with
+      | none => .error .key
+      | some a =>
+        match Delta.applyDelta a.2.2 r.data with
+        | .error e => .error e
+        | .ok out => resolveRecs ((r.name, a.2.1, out) :: acc) rs
+
+def objectsOf (recs : List Rec) : Except Err (List (Bytes × Nat × Bytes)) := resolveRecs [] recs
+
 /-! ## sequential reader (`PackData.__init__` + `iter_unpacked`) -/
 
 /-- `read_pack_header_at`: number of objects. -/
